@@ -1,9 +1,435 @@
-import Oracle.Proto
-namespace Oracle.C18
+/-
+  Oracle.C18 — runs the Lean models the C18 theorems are about on the histories the harness
+  ran on the real code, and validates Lua-level logs against the spec relation.
 
-/-- placeholder: the oracle driver for C18 is not built yet -/
+    pool <op>* = <impl>     level B: Model.ClonePool.use on every op; prints per-op outputs,
+                            the final abstract state (same rendering as VerifGCDump), the set of
+                            objects carrying a Go finaliser, and whether SetFinalizer was called twice
+    rt <op>* = <impl>       level B: Model.GcRuntime.rstep; prints the finalise/release log per op
+    lua <token>* = <impl>   level A: the observed log must satisfy Spec.Gc (finOnce, relOnce,
+                            noFinAfterRel, descending epochs at close / context end, exactly once
+                            by close, killed contexts release without finalising); prints
+                            `ok` or `bad <reason>:<id> ...`
+-/
+import Oracle.Proto
+import GoluaVerif.Spec.Gc
+import GoluaVerif.Model.ClonePool
+import GoluaVerif.Model.GcRuntime
+namespace Oracle.C18
+open GoluaVerif.Spec.Gc GoluaVerif.Model.ClonePool GoluaVerif.Model
+
+def natOfChars? (cs : List Char) : Option Nat :=
+  if cs.isEmpty then none else
+  cs.foldl (fun acc c => match acc with
+    | some a => if '0' ≤ c ∧ c ≤ '9' then some (a * 10 + (c.toNat - '0'.toNat)) else none
+    | none => none) (some 0)
+
+def splitChars (sep : Char) (cs : List Char) : List (List Char) :=
+  let rec go (cur : List Char) (acc : List (List Char)) : List Char → List (List Char)
+    | [] => (cur.reverse :: acc).reverse
+    | c :: t => if c == sep then go [] (cur.reverse :: acc) t else go (c :: cur) acc t
+  go [] [] cs
+
+/-- `o<k>.<id>` | `c<k>.<id>` -/
+def parseObj (cs : List Char) : Option Obj :=
+  match cs with
+  | t :: rest =>
+    if t != 'o' && t != 'c' then none else
+    match splitChars '.' rest with
+    | [a, b] => match natOfChars? a, natOfChars? b with
+      | some k, some i => some { key := k, id := i, clone := t == 'c' }
+      | _, _ => none
+    | _ => none
+  | [] => none
+
+def showObj (o : Obj) : String := (if o.clone then "c" else "o") ++ toString o.key ++ "." ++ toString o.id
+
+def showEntry (e : Entry) : String :=
+  showObj e.val ++ "/" ++ toString e.order ++ "/" ++ (if e.fin then "f" else "-") ++ (if e.rel then "r" else "-")
+
+def showList (l : List String) : String := "[" ++ ",".intercalate l ++ "]"
+
+def dump (p : Pool) : String :=
+  "L" ++ toString p.last ++ " R" ++ (match p.reg with
+    | none => "nil"
+    | some rg => showList (rg.map showEntry)) ++
+  " PF" ++ showList (p.pf.map showEntry) ++ " PR" ++ showList (p.pr.map showEntry)
+
+def insertStr (s : String) : List String → List String
+  | [] => [s]
+  | x :: t => if s < x then s :: x :: t else x :: insertStr s t
+def sortStr (l : List String) : List String := l.foldr insertStr []
+
+def evObj : TEv → Option Obj
+  | .fin _ v _ => some v
+  | .rel _ v _ => some v
+  | _ => none
+
+def finObj : TEv → Option Obj
+  | .fin _ v _ => some v
+  | _ => none
+def relObj : TEv → Option Obj
+  | .rel _ v _ => some v
+  | _ => none
+
+/-- `[a,b]` → objects -/
+def parseObjList (s : String) : Option (List Obj) :=
+  let cs := s.toList
+  match cs with
+  | '[' :: rest =>
+    match rest.reverse with
+    | ']' :: mid =>
+      let inner := mid.reverse
+      if inner.isEmpty then some [] else (splitChars ',' inner).mapM parseObj
+    | _ => none
+  | _ => none
+
+/-- the implementation's outputs (text after `=` up to the first `;`) -/
+def implOuts (toks : List String) : List String :=
+  ((toks.dropWhile (fun s => s != "=")).drop 1).takeWhile (fun s => s != ";")
+
+/-! ### pool mode -/
+
+inductive POp where
+  | use (u : Use)
+  | drop
+  | bad
+
+def parsePOp (tok : String) : POp :=
+  match tok with
+  | "PF" => .use .xPF
+  | "PR" => .use .xPR
+  | "AF" => .use .xAF
+  | "AR" => .use .xAR
+  | "ST" => .use .step
+  | "FA" => .use .finAll
+  | "PO" => .use .popRel
+  | _ =>
+    match splitChars ':' tok.toList with
+    | [h, o] =>
+      match parseObj o with
+      | none => .bad
+      | some ob =>
+        match h with
+        | ['f'] => .use (.fire ob)
+        | ['d'] => .drop
+        | ['m', d] =>
+          let n := d.toNat - '0'.toNat
+          if n > 3 then .bad else .use (.mark ob (n % 2 == 1) (n / 2 == 1))
+        | _ => .bad
+    | _ => .bad
+
+def poolLine (toks : List String) : String := Id.run do
+  let mut p : Pool := {}
+  let mut outs : Array String := #[]
+  for tok in toks do
+    match parsePOp tok with
+    | .bad => return "bad-line"
+    | .drop => outs := outs.push (if p.fatal then "X" else "-")
+    | .use u =>
+      if p.fatal then
+        outs := outs.push "X"
+      else
+        let p' := use p u
+        let d := p'.tr.drop p.tr.length
+        let o := match u with
+          | .mark _ _ _ => if p'.panics > p.panics then "panic" else "ok"
+          | .fire ob => if p.goReg.contains ob then "1" else "0"
+          | .step => showList (d.filterMap finObj |>.map showObj) ++ "+" ++ showList (d.filterMap relObj |>.map showObj)
+          | _ => showList (d.filterMap evObj |>.map showObj)
+        outs := outs.push o
+        p := p'
+  return " ".intercalate outs.toList ++ " ; " ++ dump p ++ " ; reg=" ++ showList (sortStr (p.goReg.map showObj))
+    ++ " ; ds=" ++ (if p.fatal then "1" else "0")
+
+/-- level A on the IMPLEMENTATION's pool outputs: every extraction is in strictly descending
+    markOrder, no marking epoch is handed out twice for finalisation, nor twice for release.
+    (The clone handed out for epoch n has id n.) -/
+def poolA (ops outs : List String) : String := Id.run do
+  let mut tr : Array TEv := #[]
+  let mut bad : Array String := #[]
+  for (op, out) in ops.zip outs do
+    let lists : List (Bool × String) :=
+      if op == "ST" then
+        match out.splitOn "+" with
+        | [a, b] => [(true, a), (false, b)]
+        | _ => []
+      else if op == "PF" || op == "AF" || op == "FA" then [(true, out)]
+      else if op == "PR" || op == "AR" || op == "PO" then [(false, out)]
+      else []
+    for (isFin, l) in lists do
+      match parseObjList l with
+      | none => if l != "X" then bad := bad.push "unparsable"
+      | some os =>
+        if !descB (os.map (·.id)) then bad := bad.push ("order:" ++ op)
+        for o in os do
+          tr := tr.push (if isFin then .fin .pf o o.id else .rel .pr o o.id)
+  if !finOnce tr.toList then bad := bad.push "finalized-twice"
+  if !relOnce tr.toList then bad := bad.push "released-twice"
+  return if bad.isEmpty then "ok" else ",".intercalate bad.toList
+
+/-! ### level A: validate an observed log against Spec.Gc
+
+  tokens:  M:<id>:<flags>  G:<id>  R:<id>  B (isolating CallContext begins)  P (PushContext)
+           Q (body of the innermost CallContext is over)  E:<status>  C / Z (Close begins / returned)
+  The epoch of a `G`/`R` is the last marking of that value before it. -/
+
+structure LuaSt where
+  tr : Array TEv := #[]
+  seq : Nat := 0
+  nextPool : Nat := 1
+  /-- open isolating contexts, innermost first: pool id, is it a CallContext, trace position of `Q` -/
+  ctxs : List (Nat × Bool × Option Nat) := []
+  /-- epoch ↦ (value id, pool id, wants finalise, wants release) -/
+  epochs : Array (Nat × Nat × Nat × Bool × Bool) := #[]
+  closing : Option Nat := none
+  dead : List Nat := []       -- epochs whose pool is gone: nothing may be finalised or released any more
+  bad : Array String := #[]
+
+def LuaSt.curPool (st : LuaSt) : Nat := match st.ctxs with | (p, _, _) :: _ => p | [] => 0
+
+def luaLine (toks : List String) : String := Id.run do
+  let mut st : LuaSt := {}
+  for tok in toks do
+    let parts := splitChars ':' tok.toList
+    match parts with
+    | [['M'], a, d] =>
+      match natOfChars? a, natOfChars? d with
+      | some k, some n =>
+        let ep := st.seq + 1
+        st := { st with seq := ep, tr := st.tr.push (.mark k ep (n % 2 == 1) (n / 2 == 1)),
+                        epochs := st.epochs.push (ep, k, st.curPool, n % 2 == 1, n / 2 == 1) }
+      | _, _ => return "bad-line"
+    | [['G'], a] =>
+      match natOfChars? a with
+      | some k =>
+        match currentEpoch k st.tr.toList with
+        | none => st := { st with bad := st.bad.push ("fin-unmarked:" ++ toString k) }
+        | some ep =>
+          if st.dead.contains ep then st := { st with bad := st.bad.push ("fin-after-context-end:" ++ toString k) }
+          let atEnd := st.closing.isSome || (match st.ctxs with | (_, _, some _) :: _ => true | _ => false)
+          st := { st with tr := st.tr.push (.fin (if atEnd then .af else .pf) { key := k, id := 0, clone := true } ep) }
+      | none => return "bad-line"
+    | [['R'], a] =>
+      match natOfChars? a with
+      | some k =>
+        match currentEpoch k st.tr.toList with
+        | none => st := { st with bad := st.bad.push ("rel-unmarked:" ++ toString k) }
+        | some ep =>
+          if st.dead.contains ep then st := { st with bad := st.bad.push ("rel-after-context-end:" ++ toString k) }
+          st := { st with tr := st.tr.push (.rel .pr { key := k, id := 0, clone := true } ep) }
+      | none => return "bad-line"
+    | [['B']] => st := { st with ctxs := (st.nextPool, true, none) :: st.ctxs, nextPool := st.nextPool + 1 }
+    | [['P']] => st := { st with ctxs := (st.nextPool, false, none) :: st.ctxs, nextPool := st.nextPool + 1 }
+    | [['Q']] =>
+      match st.ctxs with
+      | (p, true, _) :: rest => st := { st with ctxs := (p, true, some st.tr.size) :: rest }
+      | _ => return "bad-line"
+    | [['E'], status] =>
+      match st.ctxs with
+      | (pool, true, be) :: rest =>
+        let tr := st.tr.toList
+        let killed := String.ofList status == "killed"
+        let mine := st.epochs.toList.filter (fun x => x.2.2.1 == pool)
+        for (ep, k, _, f, r) in mine do
+          -- only the epochs that are still the current marking of their value are owed anything
+          if currentEpoch k tr == some ep then
+            if r && !(relOrders tr).contains ep then st := { st with bad := st.bad.push ("not-released-by-context-end:" ++ toString k) }
+            if f && !killed && !(finOrders tr).contains ep then
+              st := { st with bad := st.bad.push ("not-finalized-by-context-end:" ++ toString k) }
+        if killed then
+          -- nothing marked in a killed context may be finalised from the kill on; the kill is not
+          -- observable, but a finaliser running at the context's end (after `Q`) would be
+          match be with
+          | some pos => if !(closeFinOrders (tr.drop pos)).isEmpty then st := { st with bad := st.bad.push "finalized-in-killed-context:0" }
+          | none => pure ()
+        else
+          match be with
+          | some pos =>
+            if !descB (closeFinOrders (tr.drop pos)) then st := { st with bad := st.bad.push "context-end-order:0" }
+          | none => pure ()
+        st := { st with ctxs := rest, dead := mine.map (·.1) ++ st.dead }
+      | _ => return "bad-line"
+    | [['C']] => st := { st with closing := some st.tr.size }
+    | [['Z']] =>
+      let tr := st.tr.toList
+      match st.closing with
+      | none => return "bad-line"
+      | some pos =>
+        -- reverse order of marking, pool by pool
+        for pool in (List.range st.nextPool) do
+          let mine := (st.epochs.toList.filter (fun x => x.2.2.1 == pool)).map (·.1)
+          if !descB ((closeFinOrders (tr.drop pos)).filter (fun n => mine.contains n)) then
+            st := { st with bad := st.bad.push "close-order:0" }
+        for (ep, k, _, f, r) in st.epochs.toList do
+          if currentEpoch k tr == some ep && !st.dead.contains ep then
+            if f && !(finOrders tr).contains ep then st := { st with bad := st.bad.push ("not-finalized-by-close:" ++ toString k) }
+            if r && !(relOrders tr).contains ep then st := { st with bad := st.bad.push ("not-released-by-close:" ++ toString k) }
+        st := { st with dead := st.epochs.toList.map (·.1) }
+    | _ => return "bad-line"
+  let tr := st.tr.toList
+  if !finOnce tr then st := { st with bad := st.bad.push "finalized-twice:0" }
+  if !relOnce tr then st := { st with bad := st.bad.push "released-twice:0" }
+  if !noFinAfterRel tr then st := { st with bad := st.bad.push "finalized-after-release:0" }
+  if st.bad.isEmpty then return "ok" else return "bad " ++ " ".intercalate st.bad.toList
+
+/-! ### runtime mode -/
+
+def showLog (d : List TEv) : String :=
+  let l := d.filterMap fun e => match e with
+    | .fin _ v _ => some ("f" ++ toString v.key)
+    | .rel _ v _ => some ("r" ++ toString v.key)
+    | _ => none
+  if l.isEmpty then "-" else ",".intercalate l
+
+/-- `<k>o` = the original of value k, `<k>c` = the clone of k most recently handed to a finaliser -/
+def resolve (s : GcRuntime.Rt) (cs : List Char) : Option Obj :=
+  match cs.reverse with
+  | t :: rk =>
+    match natOfChars? rk.reverse with
+    | none => none
+    | some k =>
+      if t == 'o' then some { key := k, id := 0, clone := false }
+      else if t == 'c' then
+        match s.log.reverse.find? (fun e => match e with | .fin _ v _ => v.key == k | _ => false) with
+        | some (.fin _ v _) => some v
+        | _ => none
+      else none
+  | [] => none
+
+/-- observed `f3,r3` → level-A tokens -/
+def obsTokens (out : String) : List String :=
+  if out == "-" || out == "panic" || out == "0" || out == "1" || out == "X" || out == "n" then [] else
+  (out.splitOn ",").map fun s =>
+    match s.toList with
+    | 'f' :: r => "G:" ++ String.ofList r
+    | 'r' :: r => "R:" ++ String.ofList r
+    | _ => "?"
+
+def rtLine (toks : List String) (impl : List String) : String := Id.run do
+  let mut s : GcRuntime.Rt := {}
+  let mut ctx : List Bool := []   -- open CallContexts: isolating?
+  let mut outs : Array String := #[]
+  let mut atoks : Array String := #[]   -- level-A tokens built from the IMPLEMENTATION's outputs
+  let mut implLeft := impl
+  -- the environment assumption, checked on the history: names (`3o`, `3c`) the program still references;
+  -- a Go finaliser may only fire for a dropped object, and only referenced objects can be re-marked
+  let mut refs : List String := []
+  let mut disciplined := true
+  let mut reachable : Array String := #[]
+  -- values of which a clone was handed out by a close-time finalisation while they were still referenced
+  let mut tainted : List String := []
+  for tok in toks do
+    let obs := obsTokens (implLeft.head?.getD "-")
+    let implOut := implLeft.head?.getD "-"
+    implLeft := implLeft.drop 1
+    if s.fatal then
+      outs := outs.push "X"
+      continue
+    let before := s.log.length
+    let panicsBefore := (s.pools.map (·.panics)).foldl (· + ·) 0
+    let mut fireOut : Option String := none
+    let mut ok := true
+    match tok with
+    | "st" =>
+      s := GcRuntime.rstep s (.prim .step); atoks := atoks ++ obs
+      -- level A, never finalised while reachable: a pending finalisation observed on the implementation
+      for t in obs do
+        match t.toList with
+        | 'G' :: ':' :: r =>
+          let k := String.ofList r
+          if refs.contains (k ++ "o") || refs.contains (k ++ "c") then
+            reachable := reachable.push ((if tainted.contains k then "finalized-while-reachable-through-the-original-after-close-time-finalisation:"
+              else "finalized-while-reachable:") ++ k)
+        | _ => pure ()
+    | "pu" => s := GcRuntime.rstep s (.prim .push); atoks := atoks.push "P"
+    | "cc" => s := GcRuntime.rstep s (.prim .push); ctx := true :: ctx; atoks := atoks.push "B"
+    | "cs" => ctx := false :: ctx
+    | "ps" => pure ()
+    | "cl" => s := GcRuntime.rstep s .close; atoks := (atoks.push "C") ++ obs |>.push "Z"
+    | "ed" | "ee" | "ek" =>
+      match ctx with
+      | [] => ok := false
+      | iso :: rest =>
+        ctx := rest
+        if iso then
+          s := GcRuntime.rstep s (if tok == "ek" then .callKilled else .callDone)
+          atoks := (atoks.push "Q") ++ obs |>.push (if tok == "ek" then "E:killed" else if tok == "ee" then "E:error" else "E:done")
+        else atoks := atoks ++ obs
+    | _ =>
+      match splitChars ':' tok.toList with
+      | [h, a] =>
+        match h with
+        | ['m', 'k', d] =>
+          match natOfChars? a with
+          | some k =>
+            let n := d.toNat - '0'.toNat
+            s := GcRuntime.rstep s (.prim (.mark { key := k, id := 0, clone := false } (n % 2 == 1) (n / 2 == 1)))
+            refs := (toString k ++ "o") :: refs
+            if implOut != "panic" && implOut != "X" then atoks := atoks.push ("M:" ++ toString k ++ ":" ++ toString n)
+          | none => ok := false
+        | ['r', 'm', d] =>
+          match resolve s a with
+          | some ob =>
+            let n := d.toNat - '0'.toNat
+            s := GcRuntime.rstep s (.prim (.mark ob (n % 2 == 1) (n / 2 == 1)))
+          | none => fireOut := some "n"
+          -- level A goes by what the implementation says it did, not by the model
+          if implOut != "n" then
+            if !refs.contains (String.ofList a) then disciplined := false
+            if implOut != "panic" && implOut != "X" then
+              atoks := atoks.push ("M:" ++ String.ofList (a.take (a.length - 1)) ++ ":" ++ String.singleton d)
+        | ['f', 'i'] =>
+          match resolve s a with
+          | some ob =>
+            fireOut := some (if s.pools.any (fun p => p.goReg.contains ob) then "1" else "0")
+            s := GcRuntime.rstep s (.prim (.fire ob))
+          | none => fireOut := some "n"
+          if implOut != "n" && refs.contains (String.ofList a) then disciplined := false
+        | ['d', 'r'] => refs := refs.filter (fun x => x != String.ofList a)
+        | _ => ok := false
+      | _ => ok := false
+    if !ok then return "bad-line"
+    let d := showLog (s.log.drop before)
+    if tok == "cl" || tok == "ed" || tok == "ee" then
+      for t in obs do
+        match t.toList with
+        | 'G' :: ':' :: r => if refs.contains (String.ofList r ++ "o") || refs.contains (String.ofList r ++ "c") then tainted := String.ofList r :: tainted
+        | _ => pure ()
+    -- every value the implementation handed to a finaliser is referenced (the harness keeps the clone) until dropped
+    for t in obs do
+      match t.toList with
+      | 'G' :: ':' :: r => refs := (String.ofList r ++ "c") :: refs.filter (fun x => x != String.ofList r ++ "c")
+      | _ => pure ()
+    let panicked := (s.pools.map (·.panics)).foldl (· + ·) 0 > panicsBefore
+    outs := outs.push (if s.fatal then "X" else if panicked then "panic" else match fireOut with | some f => f | none => d)
+  -- epochs whose queued finalisation the MODEL says is thrown away by ExtractAllMarkedFinalize
+  let lost := (s.pools.map (fun p => p.tr.filterMap fun e => match e with
+    | .dropped v _ => some (toString v.key) | _ => none)).flatten
+  -- a history that dies in runtime.SetFinalizer or uses the runtime after Close is not judged further
+  let usedAfterClose := impl.contains "panic"
+  let verdict :=
+    if s.fatal then "fatal" else if usedAfterClose then "ok" else if !disciplined then "undisciplined"
+    else
+      let v := luaLine atoks.toList
+      if reachable.isEmpty then v
+      else (if v == "ok" then "bad" else v) ++ " " ++ " ".intercalate reachable.toList
+  return " ".intercalate outs.toList ++ " ; ds=" ++ (if s.fatal then "1" else "0") ++ " ; A=" ++ verdict
+    ++ " ; D1=" ++ ",".intercalate lost
+
+def handle (line : String) : String :=
+  let toks := (line.splitOn " ").filter (fun s => !s.isEmpty)
+  let body := toks.takeWhile (fun s => s != "=")
+  match body with
+  | "pool" :: ops => poolLine ops ++ " ; A=" ++ poolA ops (implOuts toks)
+  | "rt" :: ops => rtLine ops (implOuts toks)
+  | "lua" :: ops => luaLine ops
+  | _ => "bad-line"
+
 def main (_args : List String) : IO UInt32 := do
-  IO.eprintln "oracle mode c18: not built"
-  return 2
+  let stdin ← IO.getStdin
+  let stdout ← IO.getStdout
+  forEachLine stdin fun line => stdout.putStrLn (handle line)
+  return 0
 
 end Oracle.C18
